@@ -216,7 +216,8 @@ CallErr(op) ==
   /\ out' = [kind |-> "err"]
   /\ UNCHANGED <<fwd, nis, rib, pend, refNH, refNHG, call, ref, mirror, pflush>>
 
-(* DeleteEntry(ni, op) *)
+(* DeleteEntry(ni, op).  The verdict is defined from the installed entries  *)
+(* (ground truth), not from the counters; CountersExact ties the two.       *)
 DeleteVerdict(op) ==
   IF op.bad # "" THEN "failed"
   ELSE IF ~HasE(rib, op.ni, Tab(op), Key(op)) THEN "ok"
@@ -224,55 +225,63 @@ DeleteVerdict(op) ==
   ELSE IF op.kind = "nh" /\ NHGReferrers(rib, op.ni, op.key) # {} THEN "failed"
   ELSE "ok"
 
+\* the values of the variables a DeleteEntry changes, as a record
+DeleteNext(op) ==
+  LET v   == DeleteVerdict(op)
+      had == op.bad = "" /\ HasE(rib, op.ni, Tab(op), Key(op))
+      o   == rib[op.ni][Tab(op)][Key(op)]
+  IN
+  IF v = "failed"
+  THEN [out |-> [kind |-> "del", oks |-> <<>>, fails |-> <<op.id>>],
+        rib |-> rib, mirror |-> mirror, ref |-> ref, refNH |-> refNH, refNHG |-> refNHG]
+  ELSE [out |-> [kind |-> "del", oks |-> <<op.id>>, fails |-> <<>>],
+        rib |-> DelE(rib, op.ni, Tab(op), Key(op)),
+        mirror |-> DelE(mirror, op.ni, Tab(op), Key(op)),
+        ref |-> RefApply(ref, op),
+        refNHG |-> IF had /\ op.kind \in TopKinds /\ TargetOf(o, op.ni) \in nis
+                   THEN [refNHG EXCEPT ![TargetOf(o, op.ni)] = Dec(@, o.g)]
+                   ELSE refNHG,
+        refNH |-> IF had /\ op.kind = "nhg"
+                  THEN [refNH EXCEPT ![op.ni] = DecAll(@, o.nhs)]
+                  ELSE refNH]
+
+DeleteOK(op) == ~call.active /\ op.typ = "DELETE" /\ ~Unroutable(op)
+
 Delete(op) ==
-  /\ ~call.active
-  /\ op.typ = "DELETE"
-  /\ ~Unroutable(op)
-  /\ LET v   == DeleteVerdict(op)
-         had == op.bad = "" /\ HasE(rib, op.ni, Tab(op), Key(op))
-         o   == rib[op.ni][Tab(op)][Key(op)]
-     IN
-     IF v = "failed"
-     THEN /\ out' = [kind |-> "del", oks |-> <<>>, fails |-> <<op.id>>]
-          /\ UNCHANGED <<rib, mirror, ref, refNH, refNHG>>
-     ELSE /\ out' = [kind |-> "del", oks |-> <<op.id>>, fails |-> <<>>]
-          /\ rib' = DelE(rib, op.ni, Tab(op), Key(op))
-          /\ mirror' = DelE(mirror, op.ni, Tab(op), Key(op))
-          /\ ref' = RefApply(ref, op)
-          /\ refNHG' = IF had /\ op.kind \in TopKinds /\ TargetOf(o, op.ni) \in nis
-                       THEN [refNHG EXCEPT ![TargetOf(o, op.ni)] = Dec(@, o.g)]
-                       ELSE refNHG
-          /\ refNH' = IF had /\ op.kind = "nhg"
-                      THEN [refNH EXCEPT ![op.ni] = DecAll(@, o.nhs)]
-                      ELSE refNH
+  /\ DeleteOK(op)
+  /\ LET n == DeleteNext(op) IN
+       /\ out' = n.out /\ rib' = n.rib /\ mirror' = n.mirror /\ ref' = n.ref
+       /\ refNH' = n.refNH /\ refNHG' = n.refNHG
   /\ UNCHANGED <<fwd, nis, pend, call, pflush>>
 
 (* Flush(S): every entry of the instances in S goes; held operations stay *)
-FlushedTargets(S) ==
-  {<<TargetOf(rib[n].top[k], n), rib[n].top[k].g>> : <<n, k>> \in
-      UNION {{<<n2, k2>> : k2 \in DOMAIN rib[n2].top} : n2 \in S}}
+AllTops(S) == UNION {{<<n2, k2>> : k2 \in DOMAIN rib[n2].top} : n2 \in S}
+
+FlushNext(S) ==
+  [rib |-> [n \in nis |-> IF n \in S THEN EmptyNI ELSE rib[n]],
+   mirror |-> [n \in nis |-> IF n \in S THEN EmptyNI ELSE mirror[n]],
+   ref |-> [n \in nis |-> IF n \in S THEN EmptyNI ELSE ref[n]],
+   refNH |-> [n \in nis |-> IF n \in S THEN EmptyFn ELSE refNH[n]],
+   refNHG |-> [n \in nis |->
+        LET cntOf(g) == Cardinality({nk \in AllTops(S) :
+                TargetOf(rib[nk[1]].top[nk[2]], nk[1]) = n /\ rib[nk[1]].top[nk[2]].g = g})
+        IN [g \in {h \in DOMAIN refNHG[n] : refNHG[n][h] > cntOf(h)} |-> refNHG[n][g] - cntOf(g)]],
+   pflush |-> (pflush \/ S # nis),
+   out |-> [kind |-> "flush", ok |-> TRUE]]
+
+FlushOK(S) == ~call.active /\ S \subseteq nis
 
 Flush(S) ==
-  /\ ~call.active
-  /\ S \subseteq nis
-  /\ rib' = [n \in nis |-> IF n \in S THEN EmptyNI ELSE rib[n]]
-  /\ mirror' = [n \in nis |-> IF n \in S THEN EmptyNI ELSE mirror[n]]
-  /\ ref' = [n \in nis |-> IF n \in S THEN EmptyNI ELSE ref[n]]
-  /\ refNH' = [n \in nis |-> IF n \in S THEN EmptyFn ELSE refNH[n]]
-  /\ refNHG' = [n \in nis |->
-        LET tg == {t \in FlushedTargets(S) : t[1] = n}
-            cntOf(g) == Cardinality({<<n2, k>> \in
-                UNION {{<<n3, k3>> : k3 \in DOMAIN rib[n3].top} : n3 \in S} :
-                TargetOf(rib[n2].top[k], n2) = n /\ rib[n2].top[k].g = g})
-        IN [g \in {h \in DOMAIN refNHG[n] : refNHG[n][h] > cntOf(h)} |-> refNHG[n][g] - cntOf(g)]]
-  /\ pflush' = (pflush \/ S # nis)
-  /\ out' = [kind |-> "flush", ok |-> TRUE]
+  /\ FlushOK(S)
+  /\ LET n == FlushNext(S) IN
+       /\ rib' = n.rib /\ mirror' = n.mirror /\ ref' = n.ref /\ refNH' = n.refNH
+       /\ refNHG' = n.refNHG /\ pflush' = n.pflush /\ out' = n.out
   /\ UNCHANGED <<fwd, nis, pend, call>>
 
+AddNIOK(n) == ~call.active /\ n \notin nis /\ n # ""
+
 AddNI(n) ==
-  /\ ~call.active
-  /\ n \notin nis
-  /\ n # ""
+  /\ AddNIOK(n)
   /\ nis' = nis \cup {n}
   /\ rib' = Put(rib, n, EmptyNI)
   /\ mirror' = Put(mirror, n, EmptyNI)
@@ -290,13 +299,13 @@ Quiescent == ~call.active
 InstalledIsFold == Quiescent => rib = ref
 
 \* C02: nothing installed dangles as long as only Modify and full flushes ran
-NoDangling ==
-  ~pflush =>
-    \A n \in nis :
-      /\ \A k \in DOMAIN rib[n].nhg : rib[n].nhg[k].nhs \subseteq DOMAIN rib[n].nh
-      /\ \A k \in DOMAIN rib[n].top :
-            LET t == TargetOf(rib[n].top[k], n) IN
-            t \in nis /\ rib[n].top[k].g \in DOMAIN rib[t].nhg
+NoDanglingOf(R, N) ==
+    \A n \in N :
+      /\ \A k \in DOMAIN R[n].nhg : R[n].nhg[k].nhs \subseteq DOMAIN R[n].nh
+      /\ \A k \in DOMAIN R[n].top :
+            LET t == TargetOf(R[n].top[k], n) IN
+            t \in N /\ R[n].top[k].g \in DOMAIN R[t].nhg
+NoDangling == ~pflush => NoDanglingOf(rib, nis)
 
 \* C02: a held operation is never left unanswered while it is resolvable
 NothingResolvableHeld ==
@@ -306,12 +315,13 @@ NothingResolvableHeld ==
 NoFwdMeansNoHeld == ~fwd => pend = EmptyFn
 
 \* C03: the counters the deletion protection relies on are exact
-CountersExact ==
-  \A n \in nis :
-    /\ \A g \in DOMAIN refNHG[n] \cup DOMAIN rib[n].nhg :
-         Cnt(refNHG[n], g) = Cardinality(TopReferrers(rib, nis, n, g))
-    /\ \A i \in DOMAIN refNH[n] \cup DOMAIN rib[n].nh :
-         Cnt(refNH[n], i) = Cardinality(NHGReferrers(rib, n, i))
+CountersExactOf(R, N, cNH, cNHG) ==
+  \A n \in N :
+    /\ \A g \in DOMAIN cNHG[n] \cup DOMAIN R[n].nhg :
+         Cnt(cNHG[n], g) = Cardinality(TopReferrers(R, N, n, g))
+    /\ \A i \in DOMAIN cNH[n] \cup DOMAIN R[n].nh :
+         Cnt(cNH[n], i) = Cardinality(NHGReferrers(R, n, i))
+CountersExact == CountersExactOf(rib, nis, refNH, refNHG)
 
 \* C16: folding the notifications reconstructs the RIB
 MirrorIsRib == mirror = rib
